@@ -927,6 +927,34 @@ def seq_correspondence(ctx, harness_cmd, driver_cmd, cases, nontrivial=None,
     return len(diff_cases) + len([i for i in spec_bad if i not in diff_cases])
 
 
+def seq_correspondence_batched(ctx, harness_cmd, driver_cmd, case_iter, batch=400000, label="tieB", **kw):
+    """seq_correspondence over a (lazily generated) family too large to hold in memory with both of its
+    output streams: consecutive batches, statistics summed under one label. Stops early once a batch
+    has reported a concrete failing input."""
+    import itertools as _it
+    it = iter(case_iter)
+    total, ndiff = None, 0
+    while True:
+        chunk = list(_it.islice(it, batch))
+        if not chunk and total is not None:
+            break
+        ndiff += seq_correspondence(ctx, harness_cmd, driver_cmd, chunk, label=label, **kw)
+        cur = ctx.cov["ties"].get(label, {})
+        if total is None:
+            total = dict(cur)
+        else:
+            for key, v in cur.items():
+                if isinstance(v, (int, float)) and not isinstance(v, bool):
+                    total[key] = total.get(key, 0) + v
+                elif key not in total:
+                    total[key] = v
+        if not chunk or any(f for _, f in ctx.violations):
+            break
+    if total is not None:
+        ctx.cov["ties"][label] = total
+    return ndiff
+
+
 def finish_with_search(ctx):
     """Final step of a check: if an obligation/tie is broken and no concrete failing
     input was reported, report the violation naming what no longer checks."""
